@@ -197,3 +197,14 @@ impl Prog {
         self.extras.get(key).and_then(|b| b.downcast_ref::<T>())
     }
 }
+
+pub struct ReplyIds(pub Vec<(String, u64)>);
+#[allow(clippy::type_complexity)]
+pub struct ReplyDispatch(pub Box<dyn Fn(&mut Harness, sylvia::cw_std::Reply) -> CallOut + Send + Sync>);
+pub enum Recv<'a> {
+    Sub(&'a crate::echo::SubSpec),
+    Wasm(&'a crate::echo::SubSpec),
+    Cosmos(&'a crate::echo::SubSpec),
+}
+#[allow(clippy::type_complexity)]
+pub struct SubMsgHelper(pub Box<dyn Fn(Recv, &[Value]) -> Result<Value, String> + Send + Sync>);
